@@ -235,21 +235,33 @@ fn channel_id_binding(seed: u64) {
     }
     // account-info strings (single-input changes, including prefix-related pairs)
     let strs: [&[u8]; 6] = [b"", b"a", b"ab", b"b", b"merchant", b"customer"];
-    let mut n = 0;
+    let mut pairs: Vec<(Vec<u8>, Vec<u8>, Vec<&[u8]>)> = vec![];
     for (i, x) in strs.iter().enumerate() {
         for (j, y) in strs.iter().enumerate() {
-            if i >= j {
-                continue;
+            if i < j {
+                pairs.push((x.to_vec(), y.to_vec(), vec![&b"b"[..], &b""[..], &b"customer"[..]]));
             }
-            for fixed in [&b"b"[..], &b""[..], &b"customer"[..]] {
-                let (_, da) = mk(&format!("mi{}_{}_{}", i, j, n), &mr_a, &cr_a, &pk, x, fixed);
-                let (_, db) = mk(&format!("mj{}_{}_{}", i, j, n), &mr_a, &cr_a, &pk, y, fixed);
-                eng::prove(&format!("C18 channel id changes with merchant account info {:?} -> {:?} (customer info {:?})", String::from_utf8_lossy(x), String::from_utf8_lossy(y), String::from_utf8_lossy(fixed)), "C18 channel-id-ignores merchant_account_info", &F::BlobEq(da, db).not());
-                let (_, dc) = mk(&format!("ci{}_{}_{}", i, j, n), &mr_a, &cr_a, &pk, fixed, x);
-                let (_, dd) = mk(&format!("cj{}_{}_{}", i, j, n), &mr_a, &cr_a, &pk, fixed, y);
-                eng::prove(&format!("C18 channel id changes with customer account info {:?} -> {:?} (merchant info {:?})", String::from_utf8_lossy(x), String::from_utf8_lossy(y), String::from_utf8_lossy(fixed)), "C18 channel-id-ignores customer_account_info", &F::BlobEq(dc, dd).not());
-                n += 1;
-            }
+        }
+    }
+    // ... and pairs that only a non-injective padding / truncation would identify: trailing NULs, empty vs zeros, long
+    // strings (70 bytes; 200 bytes > one SHA3-256 block) differing in their last byte only
+    let long_a: Vec<u8> = (0..200u32).map(|i| (i % 251) as u8 + 1).collect();
+    let mut long_b = long_a.clone();
+    *long_b.last_mut().unwrap() ^= 1;
+    let (mid_a, mut mid_b) = (long_a[..70].to_vec(), long_a[..70].to_vec());
+    mid_b[69] ^= 1;
+    for (x, y) in [(b"a".to_vec(), b"a\0".to_vec()), (vec![], vec![0u8]), (vec![], vec![0u8; 20]), (vec![0u8], vec![0u8; 20]), (b"merchant".to_vec(), b"merchant\0\0".to_vec()), (long_a, long_b), (mid_a, mid_b)] {
+        pairs.push((x, y, vec![&b"b"[..]]));
+    }
+    for (n, (x, y, fixeds)) in pairs.iter().enumerate() {
+        let show = |b: &[u8]| if b.len() > 12 { format!("<{} bytes>", b.len()) } else { format!("{:?}", String::from_utf8_lossy(b)) };
+        for (k, fixed) in fixeds.iter().enumerate() {
+            let (_, da) = mk(&format!("mi{}_{}", n, k), &mr_a, &cr_a, &pk, x, fixed);
+            let (_, db) = mk(&format!("mj{}_{}", n, k), &mr_a, &cr_a, &pk, y, fixed);
+            eng::prove(&format!("C18 channel id changes with merchant account info {} -> {} (customer info {})", show(x), show(y), show(fixed)), "C18 channel-id-ignores merchant_account_info", &F::BlobEq(da, db).not());
+            let (_, dc) = mk(&format!("ci{}_{}", n, k), &mr_a, &cr_a, &pk, fixed, x);
+            let (_, dd) = mk(&format!("cj{}_{}", n, k), &mr_a, &cr_a, &pk, fixed, y);
+            eng::prove(&format!("C18 channel id changes with customer account info {} -> {} (merchant info {})", show(x), show(y), show(fixed)), "C18 channel-id-ignores customer_account_info", &F::BlobEq(dc, dd).not());
         }
     }
     eng::path_done();
